@@ -59,8 +59,8 @@ def run(ctx):
 
 
 def search(ctx):
-    if ctx.thorough:
-        return
+    if ctx.thorough or all(b.get("kind") in ("obligation", "translator", "forbidden-vernacular") for b in ctx.broken):
+        return  # a broken proof / refused table is not made more concrete by a longer harness run
     ctx.tier = "thorough"
     ctx.thorough = True
     run(ctx)
